@@ -59,14 +59,30 @@ UNIT_DEFS = {
     'V2': [{'units': 'volt', 'exponent': '2'}],
     'mV2': [{'units': 'mV', 'exponent': '2'}],
     'mV_V': [{'units': 'mV'}, {'units': 'volt'}],
+    # multiplier AND exponent on the same <unit> element (CellML 1.1 5.2.2: multiplier * (prefix * unit)**exponent),
+    # alone, with a prefix, and in chains (a unit of this kind defined from another one of this kind)
+    'qV2': [{'units': 'volt', 'exponent': '2', 'multiplier': '0.25'}],                       # 0.25 V^2
+    'hmV2': [{'units': 'volt', 'prefix': 'milli', 'exponent': '2', 'multiplier': '0.5'}],    # 0.5e-6 V^2
+    'per_V_q': [{'units': 'volt', 'exponent': '-1', 'multiplier': '0.25'}],                  # 0.25 / V
+    'V_chain': [{'units': 'per_V_q', 'exponent': '-1', 'multiplier': '0.5'}],                # 0.5 / (0.25/V) = 2 V
+    'V2_chain': [{'units': 'V_chain', 'exponent': '2', 'multiplier': '0.25'}],               # 0.25 (2 V)^2 = 1 V^2
+    'half_per_s': [{'units': 'second', 'exponent': '-1', 'multiplier': '0.5'}],              # 0.5 / s
+    'q_per_ms': [{'units': 'second', 'prefix': 'milli', 'exponent': '-1', 'multiplier': '0.25'}],   # 250 / s
+    's_chain': [{'units': 'half_per_s', 'exponent': '-1', 'multiplier': '0.25'}],            # 0.25 / (0.5/s) = 0.5 s
+    'per_s2_4': [{'units': 'second', 'exponent': '-2', 'multiplier': '4'}],                  # 4 / s^2
+    'V_per_2s': [{'units': 'volt'}, {'units': 'second', 'exponent': '-1', 'multiplier': '0.5'}],    # 0.5 V/s
+    'Vs_chain': [{'units': 'V_chain', 'multiplier': '0.5'}, {'units': 's_chain', 'exponent': '-1', 'multiplier': '4'}],  # 8 V/s
 }
+# units whose definition has multiplier != 1 and exponent != 1 on one element (directly or through a chain)
+MULT_EXP_UNITS = {'qV2', 'hmV2', 'V_chain', 'V2_chain', 'half_per_s', 'q_per_ms', 's_chain', 'V_per_2s', 'Vs_chain'}
 FAMILIES = {
-    (1, 0): ['volt', 'mV', 'uV', 'kV', 'V_alias', 'cV', 'V_near'],
-    (0, 1): ['second', 'ms', 'us', 'minute', 'sec'],
+    (1, 0): ['volt', 'mV', 'uV', 'kV', 'V_alias', 'cV', 'V_near', 'V_chain'],
+    (0, 1): ['second', 'ms', 'us', 'minute', 'sec', 's_chain'],
     (0, 0): ['dimensionless', 'percent', 'one'],
-    (1, -1): ['V_per_s', 'mV_per_ms', 'mV_per_s', 'uV_per_ms'],
-    (0, -1): ['per_s', 'per_ms', 'hertz', 'kHz', 'per_minute'],
-    (2, 0): ['V2', 'mV2', 'mV_V'],
+    (1, -1): ['V_per_s', 'mV_per_ms', 'mV_per_s', 'uV_per_ms', 'V_per_2s', 'Vs_chain'],
+    (0, -1): ['per_s', 'per_ms', 'hertz', 'kHz', 'per_minute', 'half_per_s', 'q_per_ms'],
+    (2, 0): ['V2', 'mV2', 'mV_V', 'qV2', 'hmV2', 'V2_chain'],
+    (0, -2): ['per_s2_4'],
 }
 VAR_DIMS = [(1, 0), (1, 0), (1, 0), (1, -1), (0, 0), (0, -1), (2, 0), (0, 1)]
 TIME_DIM = (0, 1)
@@ -111,6 +127,9 @@ class UnitUse:
 
     def pick(self, dim, rng):
         if dim in FAMILIES and rng.random() < 0.9:
+            special = [n for n in FAMILIES[dim] if n in MULT_EXP_UNITS]
+            if special and rng.random() < 0.12:      # a noticeable share of multiplier-and-exponent units
+                return self.need(rng.choice(special))
             return self.need(rng.choice(FAMILIES[dim]))
         name, elems = compound_unit(dim, rng)
         return self.need(name, elems)
